@@ -371,7 +371,7 @@ impl C20 {
                 dig.add_all(&[ei as u64, rep as u64, order]);
             }
         }
-        if seq.old.len() > 2000 {
+        if seq.old.len() > 2000 || seq.new.len() > 2000 {
             out.count("huge_unique_cases", 1);
         }
         if any_order_change {
@@ -471,7 +471,11 @@ impl Prop for C20 {
         let huge = rng.chance(if tier == Tier::Quick { 1 } else { 2 }, 100);
         if huge {
             let blocks = 1100 + rng.usize(900);
-            let (o, n) = crate::gen::gen_unique_heavy(rng, blocks);
+            let (o, n) = if rng.chance(9, 10) {
+                crate::gen::gen_unique_heavy(rng, blocks)
+            } else {
+                crate::gen::gen_composite(rng)
+            };
             seq.old_range = (0, o.len());
             seq.new_range = (0, n.len());
             seq.old = o;
